@@ -5,6 +5,7 @@ import (
 	"encoding/json"
 	"fmt"
 	"hash/fnv"
+	"strings"
 
 	"verif/codec"
 	"verif/ev"
@@ -161,7 +162,21 @@ func bodyLen(n *codec.Node) int {
 }
 
 // mutants enumerates every single mutation of root as a tree (emit may keep it: trees are fresh clones).
-func mutants(root *codec.Node, emit func(desc string, t *codec.Node)) {
+func mutants(root *codec.Node, emit func(desc string, t *codec.Node)) { mutantsX(root, false, emit) }
+
+// retags: the identifier octets a node can be given (every class, both forms, tag numbers 0..31 and two
+// larger ones in high-tag-number form)
+var retagNumbers = func() []int {
+	var t []int
+	for i := 0; i <= 31; i++ {
+		t = append(t, i)
+	}
+	return append(t, 40, 200)
+}()
+
+// mutantsX: with retag, every node is additionally given every identifier of retagNumbers x class x form,
+// once with its own content octets and once empty (depth 1 only: 544 variants per node).
+func mutantsX(root *codec.Node, retag bool, emit func(desc string, t *codec.Node)) {
 	nn := countNodes(root)
 	for i := 0; i < nn; i++ {
 		_, orig, _, _ := nth(root, i)
@@ -213,6 +228,28 @@ func mutants(root *codec.Node, emit func(desc string, t *codec.Node)) {
 			n.Inner = nil
 			n.Kids = []*codec.Node{codec.Octet("x")}
 			emit(fmt.Sprintf("constructed#%d", i), cl)
+		}
+		// 5. identifier octets
+		if retag && orig.Raw == nil {
+			body := orig.Body()
+			for class := 0; class < 4; class++ {
+				for form := 0; form < 2; form++ {
+					for _, tag := range retagNumbers {
+						if class == orig.Class && (form == 1) == orig.Constructed && tag == orig.Tag {
+							continue
+						}
+						for bi, bd := range [][]byte{body, {}} {
+							if bi == 1 && len(body) == 0 {
+								continue
+							}
+							cl, n, _, _ := nth(root, i)
+							raw := append(codec.Ident(class, form == 1, tag), encL(len(bd))...)
+							n.Raw = append(raw, bd...)
+							emit(fmt.Sprintf("ident#%d:%d/%d/%d/%d", i, class, form, tag, bi), cl)
+						}
+					}
+				}
+			}
 		}
 		// 4. length-octet corruptions
 		if orig.Raw == nil {
@@ -348,7 +385,7 @@ func c02run(c *Ctx) {
 		// depth 1 (every single mutation), each first mutation is a work item
 		depth2 := c.Thorough() || len(root.Kids) <= 2 || ci%13 == 1 // quick: depth 2 on packets without controls and on a rotating subset
 		complete := true
-		mutants(root, func(d1 string, t1 *codec.Node) {
+		mutantsX(root, true, func(d1 string, t1 *codec.Node) {
 			if !c.Mine() {
 				return
 			}
@@ -364,8 +401,8 @@ func c02run(c *Ctx) {
 				c.Sample(map[string]string{"canonical": fmt.Sprint(ci), "mutation": d1, "hex": hex.EncodeToString(trunc2(b1))})
 			}
 			c02decode(c, op, b1, fmt.Sprintf("canonical#%d %s", ci, d1))
-			if !depth2 {
-				return
+			if !depth2 || strings.HasPrefix(d1, "ident#") {
+				return // identifier variants are a depth-1 alphabet only
 			}
 			seen := map[uint64]struct{}{h64(b1): {}, h64(rootBytes): {}}
 			mutants(t1, func(d2 string, t2 *codec.Node) {
